@@ -48,6 +48,20 @@ def run(c):
     jb = jfull['benchmark']
     if jalone is None:
         jalone = j
+    # statistics of a frame that was analysed before (it already carries returns / cum_returns columns)
+    reuse = None
+    try:
+        k = len(df) // 3
+        if len(df) - k >= 2:
+            dfa = df.copy()
+            ts_.get_results(dfa)
+            r1 = ts_.get_results(dfa.iloc[k:].copy() if c.get('reuse_copy') else dfa.iloc[k:])
+            r0 = ts_.get_results(df.iloc[k:].copy())
+            same = (series(r1['returns']) == series(r0['returns']) and series(r1['cum_returns']) == series(r0['cum_returns'])
+                    and num(r1['max_drawdown']) == num(r0['max_drawdown']) and num(r1['sharpe']) == num(r0['sharpe']))
+            reuse = ['same'] if same else ['differs', num(r1['cum_returns'].iloc[0]), num(r0['cum_returns'].iloc[0])]
+    except Exception as e:
+        reuse = ['err', type(e).__name__ + ': ' + str(e)[:160]]
     # the rendered text panel of the tearsheet (strategy and benchmark columns)
     panel = None
     try:
@@ -78,6 +92,7 @@ def run(c):
                  'duration': int(t['max_drawdown_duration']), 'dd': series(t['drawdowns']), 'returns': series(t['returns']),
                  'cum': series(t['cum_returns'])},
         'panel': panel,
+        'reuse': reuse,
         'json_total': num(j['cum_returns'][-1][1] - 1.0) if j['cum_returns'] else None,
         'bench_total': num(jalone['cum_returns'][-1][1] - 1.0) if jalone['cum_returns'] else None,
         'json_bench_alone': {'sharpe': num(jalone['sharpe']), 'sortino': num(jalone['sortino']), 'cagr': num(jalone['cagr']),
